@@ -297,6 +297,12 @@ def check_rev(c, st):
                 return ('reverse_iter_lines-raised:%s' % type(e).__name__,
                         'reverse_iter_lines(%r as %s, blocksize=%d) raised %r' % (c['content'], kind, bs, e))
             results[(kind, bs)] = out
+            # the lines of a binary file are bytes objects (hashable, usable as dict keys, accepted by json.loads and
+            # socket.send alike), those of a text file str - every one of them, also the empty ones
+            odd = [type(x).__name__ for x in out if type(x) is not type(want[0] if want else (b'' if isinstance(data, bytes) and not kind.startswith('text') else ''))]
+            if odd and out == want:
+                return ('reverse_iter_lines:line-type', 'reverse_iter_lines(%r as %s, blocksize=%d) yields lines of type %s'
+                        % (c['content'], kind, bs, sorted(set(odd))))
             if out != want and line_by_line_undecodable(kind, c['content']):
                 return (ENCODING_IGNORED_SIG, 'reverse_iter_lines(%r as %s, blocksize=%d) = %r, the handle itself reads %r'
                         % (c['content'], kind, bs, out, want))
